@@ -55,6 +55,50 @@ async def _suspending_handler(sess, man, event, rec, kw):
         await asyncio.sleep(0.35)
 
 
+def handshake_scenario(rng, rank):
+    """junk that arrives DURING the handshake (unknown verbs, duplicates of handshake replies, unsolicited
+    framed and unframed datagrams): the consumers are alive from the start of the connection, nothing stays
+    at the head of the queue, and the handshake completes"""
+    sc = EngineScenario.early(rng, rank=rank)
+    try:
+        s = sc.s
+        injected = 0
+        spa_seen = None
+        for step in range(400):
+            s.advance(0.05)
+            spa = s.man._spa
+            if spa is not None and sc.tr is not None and sc.tap is not None:
+                spa_seen = spa
+                sc.spa = spa
+                nsent = len(sc.tr.sent)
+                if nsent >= 1 and injected < 6 and rng.random() < 0.5 and not (s.man.facade is not None):
+                    sid, cid = spa.descriptor.identifier, spa.client_id
+                    choice = rng.randrange(4)
+                    if choice == 0:
+                        d = frame(sid, cid, b"XYZZY" + bytes([rng.randrange(256)]))
+                    elif choice == 1:
+                        # a duplicate of the newest reply the simulator sent on this connection
+                        rep = [x for (t_, k_, x, info) in s.net.log if k_ == "s2c" and info.get("tr") == sc.tr.id]
+                        d = rep[-1] if rep else frame(sid, cid, b"SVERS\x00\x01\x02\x03\x04\x05\x06")
+                    elif choice == 2:
+                        d = b"garbage-" + bytes([65 + rng.randrange(20)])
+                    else:
+                        d = frame(sid, cid, b"PACKS")
+                    s.inject(d, transport=sc.tr)
+                    injected += 1
+            if s.man.facade is not None and s.man.spa_state.name == "CONNECTED":
+                break
+        connected = s.man.facade is not None and s.man.spa_state.name == "CONNECTED"
+        s.advance(1.0)
+        if sc.tap is None or spa_seen is None:
+            raise env.MachineryError("handshake scenario: the connection's endpoint was never created")
+        ev = merge(sc)
+        return {"ev": ev, "kind": "handshake", "rank": rank, "connected": connected, "injected": injected,
+                "callbacks": 0, "inert": 0}
+    finally:
+        sc.close()
+
+
 def scenario(rng, rank, stalls=False):
     # the adversarial per-tick order is switched on after the handshake (under it the 27-segment
     # initial transfer rarely survives the Unhandled/Packet race, which is not C07's subject)
@@ -172,6 +216,14 @@ def run(ctx):
     for i in range(n):
         # every third scenario runs on an event loop that occasionally stalls (logged, see TStall)
         logs.append(scenario(rng, ["stable", "perm", "reverse", "seeded"][i % 4], stalls=(i % 3 == 2)))
+    # junk during the handshake, under the stable wake orders (the adversarial per-tick order is not used
+    # before the connection exists, see above)
+    for i in range(6 if ctx.quick else 80):
+        lg = handshake_scenario(rng, ["stable", "perm", "reverse"][i % 3])
+        logs.append(lg)
+        if not lg["connected"]:
+            ctx.violation({"clause": "handshake-does-not-complete-with-junk-traffic"},
+                          {"rank": lg["rank"], "injected": lg["injected"], "tail": lg["ev"][-10:]})
     verdicts, _ = tlc.validate("AsyncEngine_Trace", logs, "c07", CFG.format(**consts()), chunk=4, heap="2g", jobs=12)
     nontriv = set()
     for lg, v in zip(logs, verdicts):
